@@ -207,16 +207,21 @@ class SimplicialComplex:
         :returns: the name of the new simplex (which will be id if provided)"""
         k = len(bs) - 1    # order of the final simplex
 
-        # fill in defaults
-        if id is None:
-            id = self._rep.newSimplex(k)
-        if attr is None:
-            attr = dict()
+        # check the name and the basis before creating anything
+        if id is not None and self.containsSimplex(id):
+            raise KeyError(f'Duplicate simplex {id}')
+        for b in bs:
+            if b in self and self.orderOf(b) != 0:
+                raise ValueError(f'Higher-order simplex {b} in basis set')
 
         # check we don't already have a simplex with this basis
         eid = self.simplexWithBasis(bs)
         if eid is not None:
             raise KeyError(f'Simplex {eid} already exists with basis {bs}')
+
+        # fill in defaults
+        if attr is None:
+            attr = dict()
 
         # if we're creating an 0-simplex, we're equivalent to addSimplex
         if k == 0:
@@ -224,6 +229,10 @@ class SimplicialComplex:
 
         # make sure the list is a basis, creating any missing 0-simplices
         self.ensureBasis(bs, attr)
+
+        # synthesise a name only now, so that it avoids the basis too
+        if id is None:
+            id = self._rep.newSimplex(k)
 
         # recursively add the simplex and any of its missing faces
         s = self._addSimplexWithBasis(id, attr, k, bs)
